@@ -15,8 +15,10 @@ from pydbml import PyDBML  # noqa: E402
 
 PID = 'C14'
 THEOREMS = ['PyDBML.C14.comment_lines_prefixed', 'PyDBML.C14.comment_ends_with_newline',
-            'PyDBML.C14.splitNL_joinNL']
-MODULES = ['PyDBMLProofs.Props.C14']
+            'PyDBML.C14.splitNL_joinNL', 'PyDBML.C02.flags_refs_roundtrip_partial', 'PyDBML.C02.flags_tables_roundtrip_partial',
+            'PyDBML.C02.cBefore_comment', 'PyDBML.C02.cBefore_nl_comment', 'PyDBML.C02.comment_line_ok', 'PyDBML.C02.optComment_eq']
+MODULES = ['PyDBMLProofs.Props.C14', 'PyDBMLProofs.Props.C02Comment', 'PyDBMLProofs.Props.C02FormTables', 'PyDBMLProofs.Props.C02FormRefs',
+           'PyDBMLProofs.Props.C02FlagsTables']
 
 
 def comments_of(d):
@@ -210,7 +212,10 @@ def main(tier, seed):
                     'the comment attributes are the ones the placement rules predict (trailing wins over above). Rendering oracle: '
                     'SQL statements read back by the DDL reader are the same with and without comments, every comment line carries '
                     'its marker, the DBML re-parses to the same content and comments. Theorem: every line of a rendered comment '
-                    'starts with the marker (comment_lines_prefixed). The Lean parser and renderer models must agree on all of it.',
+                    'starts with the marker (comment_lines_prefixed); a one-line comment directly above a TABLE is written by the DBML renderer as a `// ` line '
+                    '(optComment_eq), collected by `_c` exactly (cBefore_comment at the start of the text, cBefore_nl_comment after the previous element; '
+                    'comment_line_ok) and stored on that very table: flags_tables_roundtrip_partial / flags_refs_roundtrip_partial (C02FlagsTables.lean) - '
+                    'documents of any number of tables, each possibly under a comment, round-trip with the comments on the same tables. The Lean parser and renderer models must agree on all of it.',
         assumptions=['comment lines are LF-separated as the code defines them (CR / U+2028 inside a comment are outside the generated texts)'],
         trusted_base=['Lean 4.33 kernel', 'hand-written models tied by this correspondence', 'harness/speller.py placement rules'],
         kf_replay=None, proof_problems=problems)
